@@ -19,7 +19,7 @@ def tsize : Node → Nat
   | .obj fs => fieldsTsize fs + 2
   | .arr vs => nodesTsize vs + 2
   | .hdr _ b => tsize b + 1
-def fieldsTsize : List (Bytes × Op × Node) → Nat
+def fieldsTsize : List (Key × Op × Node) → Nat
   | [] => 0
   | (_, o, v) :: r => 1 + (opToks o).length + tsize v + fieldsTsize r
 def nodesTsize : List Node → Nat
@@ -40,7 +40,7 @@ theorem tapeNode_len : ∀ (v : Node) (b : Nat), (tapeNode b v).length = tsize v
   | .hdr n body, b => by
       simp only [tapeNode, List.length_cons, tsize]
       rw [tapeNode_len body (b + 1)]
-theorem tapeFields_len : ∀ (fs : List (Bytes × Op × Node)) (b : Nat), (tapeFields b fs).length = fieldsTsize fs
+theorem tapeFields_len : ∀ (fs : List (Key × Op × Node)) (b : Nat), (tapeFields b fs).length = fieldsTsize fs
   | [], b => by simp [tapeFields, fieldsTsize]
   | (k, o, v) :: r, b => by
       have h1 := tapeNode_len v
@@ -67,7 +67,7 @@ end
 
 theorem tsize_pos (v : Node) : 1 ≤ tsize v := by cases v <;> simp [tsize]
 
-theorem fieldsTsize_len : ∀ (fs : List (Bytes × Op × Node)), fs.length ≤ fieldsTsize fs
+theorem fieldsTsize_len : ∀ (fs : List (Key × Op × Node)), fs.length ≤ fieldsTsize fs
   | [] => by simp
   | (k, o, v) :: r => by
       have := fieldsTsize_len r
@@ -202,26 +202,31 @@ theorem nextIdxValues_node {toks : List TTok} {i : Nat} {v : Node}
   | arr vs => simp only [tapeHead] at hh; simp [nextIdxValues, tokAt, hh, tsize]; omega
   | hdr n b => simp [Node.isHdr] at hn
 
-theorem tapeFields_cons (b : Nat) (k : Bytes) (o : Op) (v : Node) (r : List (Bytes × Op × Node)) :
+theorem key_ttok_cases (k : Key) : k.ttok = .unq k.bytes ∨ k.ttok = .quo k.bytes := by
+  simp only [Key.ttok]; split <;> simp
+
+theorem tapeFields_cons (b : Nat) (k : Key) (o : Op) (v : Node) (r : List (Key × Op × Node)) :
     tapeFields b ((k, o, v) :: r) =
-      TTok.unq k :: (opToks o ++ (tapeNode (b + 1 + (opToks o).length) v ++
+      k.ttok :: (opToks o ++ (tapeNode (b + 1 + (opToks o).length) v ++
         tapeFields (b + 1 + (opToks o).length + tsize v) r)) := by
   cases o <;> simp [tapeFields, opToks, tapeNode_len]
 
 theorem fieldsNext_eq_aux (toks : List TTok) (s e : Nat) (k : Bytes) (t : TTok) (x : Nat)
-    (hk : toks[s]? = some (.unq k)) (hh : toks[s + 1]? = some t) (hnop : ∀ o, t ≠ .op o) (hne : ¬ (s ≥ e))
+    (hk : toks[s]? = some (.unq k) ∨ toks[s]? = some (.quo k)) (hh : toks[s + 1]? = some t) (hnop : ∀ o, t ≠ .op o) (hne : ¬ (s ≥ e))
     (hnext : nextIdx toks (toks.length + 1) (s + 1) = .ok x) :
     fieldsNext toks s e = .ok (some (k, none, s + 1, x)) := by
-  cases t <;> simp_all [fieldsNext, tokAt]
+  rcases hk with hk | hk <;> cases t <;> simp_all [fieldsNext, tokAt]
 
 /-- `FieldsIter::next` on a field that starts at `s` -/
-theorem fieldsNext_node {toks : List TTok} {s e : Nat} {k : Bytes} {o : Op} {v : Node} {r : List (Bytes × Op × Node)}
+theorem fieldsNext_node {toks : List TTok} {s e : Nat} {k : Key} {o : Op} {v : Node} {r : List (Key × Op × Node)}
     (h : SitsAt toks s (tapeFields s ((k, o, v) :: r))) (hse : s < e) (hw : v.wf = true) :
-    fieldsNext toks s e = .ok (some (k, opOpt o, s + 1 + (opToks o).length, s + 1 + (opToks o).length + tsize v)) ∧
+    fieldsNext toks s e = .ok (some (k.bytes, opOpt o, s + 1 + (opToks o).length, s + 1 + (opToks o).length + tsize v)) ∧
     SitsAt toks (s + 1 + (opToks o).length) (tapeNode (s + 1 + (opToks o).length) v) ∧
     SitsAt toks (s + 1 + (opToks o).length + tsize v) (tapeFields (s + 1 + (opToks o).length + tsize v) r) := by
   rw [tapeFields_cons] at h
-  obtain ⟨hk, h1⟩ := sitsAt_cons.mp h
+  obtain ⟨hk0, h1⟩ := sitsAt_cons.mp h
+  have hk : toks[s]? = some (.unq k.bytes) ∨ toks[s]? = some (.quo k.bytes) := by
+    rcases key_ttok_cases k with h' | h' <;> rw [h'] at hk0 <;> simp [hk0]
   obtain ⟨hop, h2⟩ := sitsAt_append.mp h1
   obtain ⟨hv, hr⟩ := sitsAt_append.mp h2
   rw [tapeNode_len] at hr
@@ -234,14 +239,14 @@ theorem fieldsNext_node {toks : List TTok} {s e : Nat} {k : Bytes} {o : Op} {v :
   · subst ho
     simp only [opToks, List.length_nil, Nat.add_zero] at hv' hnext ⊢
     have hh := sits_head hv'
-    rw [fieldsNext_eq_aux toks s e k _ _ hk hh (tapeHead_not_op _ v) hne hnext]
+    rw [fieldsNext_eq_aux toks s e k.bytes _ _ hk hh (tapeHead_not_op _ v) hne hnext]
     simp [opOpt]
   · have hot : opToks o = [TTok.op o] := by cases o <;> simp_all [opToks]
     have hoo : opOpt o = some o := by cases o <;> simp_all [opOpt]
     rw [hot] at hop
     have ho1 : toks[s + 1]? = some (TTok.op o) := (sitsAt_cons.mp hop).1
     simp only [hot, List.length_cons, List.length_nil] at hv' hnext ⊢
-    simp [fieldsNext, hne, tokAt, hk, ho1, hnext, hoo]
+    rcases hk with hk | hk <;> simp [fieldsNext, hne, tokAt, hk, ho1, hnext, hoo]
 
 /-! ### the loops -/
 
@@ -271,9 +276,9 @@ theorem tMapFold_nil {σ : Type} (toks : List TTok) (onEntry : σ → TKey → V
 
 /-- the tape `MapAccess` with the struct visitor over the tokens of a field list -/
 theorem tMapFold_structN (enc : Enc) (fs : List (Bytes × Ty)) (toks : List TTok) (f e : Nat) (hend : EndOk toks e) :
-    ∀ (dfs : List (Bytes × Op × Node)) (s : Nat) (seen : List (Nat × Val)) (n : Nat),
+    ∀ (dfs : List (Key × Op × Node)) (s : Nat) (seen : List (Nat × Val)) (n : Nat),
     SitsAt toks s (tapeFields s dfs) → s + fieldsTsize dfs = e → dfs.length < n → wfFields dfs = true →
-    (∀ k o v, (k, o, v) ∈ dfs → ∀ i t, lookupIdx (decode enc k) fs 0 = some (i, t) →
+    (∀ k o v, (k, o, v) ∈ dfs → ∀ i t, lookupIdx (decode enc k.bytes) fs 0 = some (i, t) →
       ∀ vi, SitsAt toks vi (tapeNode vi v) → tde enc toks f t (.opval o vi) = valueOfN enc f t o v) →
     tMapFold toks (fun seen k vk => structEntry fs (k.decoded enc) (fun t => tde enc toks f t vk) seen) n s e false seen
       = structVals enc fs (valueOfN enc f) dfs seen
@@ -291,21 +296,21 @@ theorem tMapFold_structN (enc : Enc) (fs : List (Bytes × Ty)) (toks : List TTok
         (fun k' o' v' hm => H k' o' v' (List.mem_cons_of_mem _ hm))
       rw [tMapFold]
       simp only [hnext, opOpt_getD, structVals]
-      cases hl : lookupIdx (decode enc k) fs 0 with
+      cases hl : lookupIdx (decode enc k.bytes) fs 0 with
       | none =>
-        have hE : structEntry fs (TKey.decoded enc (.key k))
+        have hE : structEntry fs (TKey.decoded enc (.key k.bytes))
             (fun t => tde enc toks f t (.opval o (s + 1 + (opToks o).length))) seen = .ok seen := by
           simp [structEntry, TKey.decoded, hl]
         rw [hE]; exact ih seen
       | some it =>
         obtain ⟨i, t⟩ := it
         by_cases hsn : (seenGet i seen).isSome
-        · have hE : structEntry fs (TKey.decoded enc (.key k))
+        · have hE : structEntry fs (TKey.decoded enc (.key k.bytes))
               (fun t => tde enc toks f t (.opval o (s + 1 + (opToks o).length))) seen
-                = .error (.duplicate (decode enc k)) := by
+                = .error (.duplicate (decode enc k.bytes)) := by
             simp [structEntry, TKey.decoded, hl, hsn]
           rw [hE]; simp [hsn]
-        · have hE : structEntry fs (TKey.decoded enc (.key k))
+        · have hE : structEntry fs (TKey.decoded enc (.key k.bytes))
               (fun t => tde enc toks f t (.opval o (s + 1 + (opToks o).length))) seen
                 = (match valueOfN enc f t o v with
                    | .error x => .error x
@@ -321,7 +326,7 @@ theorem tMapFold_structN (enc : Enc) (fs : List (Bytes × Ty)) (toks : List TTok
 
 /-- the tape `MapAccess` with the map visitor over the tokens of a field list -/
 theorem tMapFold_mapN (enc : Enc) (t : Ty) (toks : List TTok) (f e : Nat) (hend : EndOk toks e) :
-    ∀ (dfs : List (Bytes × Op × Node)) (s : Nat) (acc : List (Val × Val)) (n : Nat),
+    ∀ (dfs : List (Key × Op × Node)) (s : Nat) (acc : List (Val × Val)) (n : Nat),
     SitsAt toks s (tapeFields s dfs) → s + fieldsTsize dfs = e → dfs.length < n → wfFields dfs = true →
     (∀ k o v, (k, o, v) ∈ dfs →
       ∀ vi, SitsAt toks vi (tapeNode vi v) → tde enc toks f t (.opval o vi) = valueOfN enc f t o v) →
@@ -372,6 +377,31 @@ theorem tSeqFold_nodesN (toks : List TTok) (onElem : VK → R Val) (valF : Node 
       | error x => rfl
       | ok x => cases seqVals valF r <;> rfl
 
+/-- tuple loop over the tokens of a value list without header values: as many elements as the tuple has
+types are read, whatever follows them is not looked at -/
+theorem tTupFold_nodesN (toks : List TTok) (onElem : Ty → VK → R Val) (valF : Ty → Node → R Val) (e : Nat) :
+    ∀ (ts : List Ty) (xs : List Node) (s : Nat), SitsAt toks s (tapeNodes s xs) → s + nodesTsize xs = e →
+    (∀ x, x ∈ xs → x.isHdr = false) →
+    (∀ t x, (t, x) ∈ List.zip ts xs → ∀ i, SitsAt toks i (tapeNode i x) → onElem t (.value i) = valF t x) →
+    tTupFold toks onElem ts s e = tupVals valF ts xs
+  | [], xs, s, _, _, _, _ => by simp [tTupFold, tupVals]
+  | t :: r, [], s, _, hs, _, _ => by
+      simp only [nodesTsize, Nat.add_zero] at hs
+      simp [tTupFold, hs, tupVals]
+  | t :: r, x :: xs, s, hsit, hs, hh, H => by
+      have hnh := hh x (List.mem_cons_self ..)
+      rw [tapeNodes_cons s x xs hnh] at hsit
+      obtain ⟨hv, hr⟩ := sitsAt_append.mp hsit
+      rw [tapeNode_len] at hr
+      have hse : s < e := by have := tsize_pos x; simp only [nodesTsize] at hs; omega
+      have ih := tTupFold_nodesN toks onElem valF e r xs (s + tsize x) hr
+        (by simp only [nodesTsize] at hs; omega)
+        (fun v' hm => hh v' (List.mem_cons_of_mem _ hm)) (fun t' x' hm => H t' x' (by simp [List.zip_cons_cons, hm]))
+      simp only [tTupFold, hse, ↓reduceIte, nextIdxValues_node hv hnh, H t x (by simp [List.zip_cons_cons]) s hv, tupVals, ih]
+      cases valF t x with
+      | error e' => rfl
+      | ok v => cases tupVals valF r xs <;> rfl
+
 /-! ### the value deserializer on the tokens of one value -/
 
 /-- the `ValueKind` a value is read with: `OperatorValue` in field position, `Value` elsewhere -/
@@ -411,7 +441,7 @@ theorem wfNodes_mem : ∀ (vs : List Node), wfNodes vs = true → ∀ v, v ∈ v
       · exact wfNodes_mem r h.2 v hm
 
 /-- parts of a non-empty object on the tape -/
-theorem sits_obj {toks : List TTok} {i : Nat} {f : Bytes × Op × Node} {fs : List (Bytes × Op × Node)}
+theorem sits_obj {toks : List TTok} {i : Nat} {f : Key × Op × Node} {fs : List (Key × Op × Node)}
     (h : SitsAt toks i (tapeNode i (.obj (f :: fs)))) :
     toks[i]? = some (.obj (i + 1 + fieldsTsize (f :: fs)) false) ∧
     SitsAt toks (i + 1) (tapeFields (i + 1) (f :: fs)) ∧
@@ -537,6 +567,7 @@ theorem tde_hdr_scalar (enc : Enc) (toks : List TTok) (i : Nat) (n : Bytes) (bod
   | map t => simp [Ty.isPlainScalar] at hp
   | prop t => simp [Ty.isPlainScalar] at hp
   | st fs => simp [Ty.isPlainScalar] at hp
+  | tup ts => simp [Ty.isPlainScalar] at hp
 
 /-! ### `any` on scalars and arrays; benign mismatches -/
 
@@ -658,6 +689,19 @@ theorem tde_node (enc : Enc) (toks : List TTok) : ∀ (f : Nat) (ty : Ty) (b : B
         (toks.length + 1) h1 (by omega) (by simp only [tsize] at hlen; omega) (fun v hm => (expand_mem vs hwn v hm).2)
         (fun v hm i' hs' => by
           have := ih t false .eq v i' (hall v hm) (expand_mem vs hwn v hm).1 hs' (by simp [Ty.height] at hh; omega) (fun _ => rfl)
+          simpa [vkOf] using this)
+      rw [tde, valueOfN]
+      simp only [tShape_seq_arr enc h0, this]
+    | @tup _ ts vs _ hall =>
+      obtain ⟨h0, h1⟩ := sits_arr hsit
+      have hwn : wfNodes vs = true := by simpa [Node.wf] using hwf
+      have hsz := nodesTsize_expand vs hwn
+      rw [← tapeNodes_expand vs (i + 1) hwn] at h1
+      have := tTupFold_nodesN toks (tde enc toks f) (fun t x => valueOfN enc f t .eq x) (i + 1 + nodesTsize vs) ts (expandNodes vs) (i + 1)
+        h1 (by omega) (fun v hm => (expand_mem vs hwn v hm).2)
+        (fun t x hm i' hs' => by
+          have := ih t false .eq x i' (hall t x hm) (expand_mem vs hwn x (List.of_mem_zip hm).2).1 hs'
+            (by have := mem_heightTs ts t (List.of_mem_zip hm).1; simp [Ty.height] at hh; omega) (fun _ => rfl)
           simpa [vkOf] using this)
       rw [tde, valueOfN]
       simp only [tShape_seq_arr enc h0, this]
@@ -791,6 +835,7 @@ theorem fitsT_fits (enc : Enc) : ∀ {b : Bool} {ty : Ty} {v : Node}, FitsT enc 
   | _, _, _, .leafOnArr h => .leafOnArr h
   | _, _, _, .mapOnLeaf => .mapOnLeaf
   | _, _, _, .stOnLeaf => .stOnLeaf
+  | _, _, _, .tup hl h => .tup hl (fun t x hm => fitsT_fits enc (h t x hm))
 
 /-- both parse paths yield the same result -/
 theorem deTape_eq_deStream (enc : Enc) (ty : Ty) (d : Doc) (hroot : Ty.isRoot ty = true)
